@@ -155,7 +155,7 @@ def main():
         ],
         "checks": checks,
         "not_applicable": na,
-        "notes": "Every check rebuilds the harness against /repo's working tree (run.sh). Known findings and repaired defects: known_findings.json (the known list is empty; 27 fix: commits). Seeded changes: seeded/ (186, all detected at the quick tier, two of them only by the check of a neighbouring property); behaviour-preserving refactorings: refactors/ (8, no alarm); self-test: tools/selftest.py -> selftest/results.json.",
+        "notes": "Every check rebuilds the harness against /repo's working tree (run.sh). Known findings and repaired defects: known_findings.json (the known list is empty; 27 fix: commits). Seeded changes: seeded/ (196, all detected at the quick tier, two of them only by the check of a neighbouring property); behaviour-preserving refactorings: refactors/ (8, no alarm); self-test: tools/selftest.py -> selftest/results.json.",
     }
     with open(os.path.join(ROOT, "MANIFEST.json"), "w") as f:
         json.dump(m, f, indent=1)
